@@ -189,6 +189,16 @@ def apply_loop_rule(rule, header, ghost, log, unit):
         bp = 'let %s = %s[%s]; let %s = __b_%s[%s];' % (X, A, J, F, J, J)
         log.append({'unit': unit, 'rule': 'RZE', 'before': h, 'after': pre + nh + ' { ' + bp + ' .. } }'})
         return pre, nh, bp, ' }'
+    if rule == 'R1i':
+        # for (I, X) in E.enumerate()   (E: a slice / Vec binding standing for its own iterator, see the S1 rewrite next to it)
+        m = re.match(r'for\s*\(\s*(\w+)\s*,\s*(\w+)\s*\)\s+in\s+(\w+)\s*\.enumerate\(\)$', h, re.S)
+        if not m:
+            raise ExtractError('%s: loop header does not match R1i: %s' % (unit, h))
+        I, X, E = m.group(1), m.group(2), m.group(3)
+        nh = 'for %s in 0..%s.len()' % (I, E)
+        bp = 'let %s = &%s[%s];' % (X, E, I)
+        log.append({'unit': unit, 'rule': 'R1i', 'before': h, 'after': nh + ' { ' + bp + ' .. }'})
+        return '', nh, bp, ''
     if rule == 'R1b':
         # for (I, X) in EXPR.iter().enumerate()  with EXPR an exec call: bind it once (as the iterator does), then index
         m = re.match(r'for\s*\(\s*(\w+)\s*,\s*(\w+)\s*\)\s+in\s+(.+?)\s*\.iter\(\)\s*\.enumerate\(\)$', h, re.S)
